@@ -120,3 +120,17 @@ REGISTRY["C35"] = ("fn", "c35")
 META["C35"] = dict(technique=_FN_TECH, note="Regexes are taken from a small fixed family; the default-method rule of MatchServeMuxPattern (empty method) is not asserted (ambiguous in the code), lookups always carry a method.",
     text="Lookup.tla: Answers (iff) and Seen (exactly the first matching prefix removed) for RpcServiceController, InvokerController, HTTPHandlerController and MatchServeMuxPattern over ordered, "
          "overlapping prefix lists, regexes, explicit lists and server-id patterns; replayed on the real controllers including what the resolved invoker / http.Handler actually receives.")
+for _p in ("C07", "C08", "C09"):
+    REGISTRY[_p] = ("framing", "run")
+_FR_TECH = "TLC exhaustive model checking of the reader state machines under every read chunking (HdrReader.tla / PktFraming.tla, scaled sizes); TLC case table at real size boundaries replayed on the real readers over a scripted chunking stream"
+_FR_NOTE = "Every chunking is explored only in the scaled model; on the real code a fixed family of chunk scripts is replayed at the real varint / limit boundaries."
+META["C07"] = dict(technique=_FR_TECH, note=_FR_NOTE,
+    text="HdrReader.tla: for every header length class and every chunking the reader decodes exactly the written header, never reads past it, rejects zero / over-limit / truncated headers. "
+         "Replay through the public Controller.HandleIncomingStream: protocol ids at the 1/2/3-byte varint boundaries, payload following in the same read, 14 chunk scripts; "
+         "dispatch carries exactly the protocol id and the link's peers, the payload is intact and unread; 12 malformed classes are closed undispatched.")
+META["C08"] = dict(technique=_FR_TECH, note=_FR_NOTE,
+    text="PktFraming.tla: exactly-once in-order delivery with preserved boundaries under every chunking; bad prefixes end the connection (zero is an empty message for Session). "
+         "Replay on rwc.PacketConn and stream/packet Session: packet sequences at sizes 1..max, chunk scripts, zero / over-limit / 2^32-1 / truncated prefixes, too-small read buffers, 4 concurrent writers.")
+META["C09"] = dict(technique=_FR_TECH, note=_FR_NOTE,
+    text="PktFraming.tla conn part: returned bytes plus explicitly dropped bytes are, in order, the written stream. Replay on rwc.Conn: write sizes around the 2048-byte pool buffer, "
+         "reader buffers 1..4096, chunk scripts; bytes are only skipped right after a read that reported ErrShortBuffer; EOF/error after the end.")
